@@ -15,7 +15,7 @@ import modelgen
 import vlib
 from checks.c01 import _files, _errclass
 
-THEOREMS = ["Yardl.C17.blocks_irrelevant", "Yardl.C17.empty_batch_writes_nothing", "Yardl.C17.any_read_schedule_is_a_prefix",
+THEOREMS = ["Yardl.C17.batch_read_ignores_previous_contents", "Yardl.C17.blocks_irrelevant", "Yardl.C17.empty_batch_writes_nothing", "Yardl.C17.any_read_schedule_is_a_prefix",
             "Yardl.C17.any_read_schedule_delivers_all"]
 
 
@@ -101,7 +101,8 @@ def _exercise(report, lab, lean, n_sets, seed):
                     outp = lab.tmp(".cpp-pf.bin")
                     rc, err = lab.run_cpp(pname, "b", "b", inp, outp, bufs, prefill=True)
                     report.count("runs.cpp.prefilled-batch-vector")
-                    _judge(report, lab, lean, pj, vals, "cpp", rc, err, outp, dict(ctx, cpp_mode="batch vector not empty on entry (stale items of earlier calls)"), None, None, None)
+                    # (the batches delivered are those of the model whatever the vector held: Yardl.C17.batch_read_ignores_previous_contents)
+                    _judge(report, lab, lean, pj, vals, "cpp", rc, err, outp, dict(ctx, cpp_mode="batch vector not empty on entry (stale items of earlier calls)"), parts, bufs, sidx)
                     if lab.ndjson and variant == 1:
                         midp, outq = lab.tmp(".cpp-pf.ndjson"), lab.tmp(".cpp-pf-ndjson.bin")
                         rc, err = lab.run_cpp(pname, "b", "j", inp, midp, bufs)
